@@ -19,13 +19,13 @@
 (*                                                                         *)
 (* A-layer: DiffRules(e, v, ns) - pymbolic/mapper/differentiator.py as the *)
 (* code has it: zero-derivative short cuts, flattened_sum/product          *)
-(* assembly, the overloaded operators of primitives.py (re-used from       *)
-(* C03_Operators), the function table, CSE preservation.  Known            *)
+(* assembly, the overloaded operators of primitives.py (C10_Ops.tla), the  *)
+(* function table, CSE preservation.  Known                                *)
 (* deviations from the meaning are named Dev_*.  The constant Bug switches *)
 (* in seeded transcription errors (negative controls of the refinement     *)
 (* check).                                                                 *)
 (***************************************************************************)
-EXTENDS C03_Operators
+EXTENDS C10_Ops
 CONSTANT Bug
 
 (***************************************************************************)
@@ -56,6 +56,12 @@ MCall(nm, args) == Call(MF(nm), args)
 \* "" unless f is exactly math.<name>
 MathName(f) == IF f.t = "Look" /\ f.a.t = "Var" /\ f.a.name = "math" THEN f.name ELSE ""
 Smooth1 == {"sin", "cos", "tan", "log", "exp", "sinh", "cosh", "tanh", "expm1"}
+
+\* << F(1), ..., F(n) >> as an explicit tuple: every element is evaluated exactly once (a function
+\* constructor [i \in 1..n |-> F(i)] is re-evaluated by TLC at every application)
+MapSeq(n, F(_)) == LET RECURSIVE Go(_)
+                       Go(i) == IF i > n THEN << >> ELSE << F(i) >> \o Go(i + 1)
+                   IN Go(1)
 
 SameTree(e, v) == e.t = v.t /\ e = v
 \* the children differentiation looks at (not the function of a call)
@@ -100,7 +106,7 @@ DTab(nm, u) ==
       [] nm = "expm1" -> Ap("exp", u)
 
 RECURSIVE DEval(_, _, _)
-DSeq(es, env, v) == [i \in 1..Len(es) |-> DEval(es[i], env, v)]
+DSeq(es, env, v) == LET F(i) == DEval(es[i], env, v) IN MapSeq(Len(es), F)
 
 DEval(e, env, v) ==
     IF SameTree(e, v) THEN DN(Rat(Eval(e, env)), One)
@@ -234,6 +240,13 @@ FlattenedProduct(terms) ==
                       ELSE Go(rest, Append(done, item))
     IN Go(terms, << >>)
 
+\* named deviation: "if not dg" is a syntactic test; the derivative of an exponent that does not
+\* depend on the variable but is wrapped (CommonSubexpression, If) is CSE(0) / If(c, 0, 0), which is
+\* truthy, so the general rule with its log(f) term is emitted for a constant exponent
+RECURSIVE HasWrapper(_)
+HasWrapper(e) == e.t \in {"CSE", "If"} \/ \E i \in 1..Len(DKids(e)) : HasWrapper(DKids(e)[i])
+Dev_WrappedConstantExponent(e, v) == e.t = "Power" /\ ~Occurs(v, e.b) /\ HasWrapper(e.b)
+
 \* named deviation: primitives.quotient(1, c) builds a pymbolic.rational.Rational for an
 \* integer constant c # 1, and Rational * 0 crashes inside rational.py
 Dev_LogOfIntegerConstant(par) ==
@@ -272,16 +285,20 @@ Rec(e, v, ns) ==
       [] e.t \in {"Var", "Sub"} -> IF SameTree(e, v) THEN KI(1) ELSE KI(0)
       [] e.t = "Call" ->
             LET fm == FunctionMap(e.f, e.c, ns)
-                ts == [i \in 1..Len(e.c) |-> IF IsRaise(fm) THEN fm ELSE Op("*", fm, Rec(e.c[i], v, ns))]
+                F(i) == IF IsRaise(fm) THEN fm ELSE Op("*", fm, Rec(e.c[i], v, ns))
+                ts == MapSeq(Len(e.c), F)
             IN FirstRaise(ts, FlattenedSum(ts))
       [] e.t = "Sum" ->
-            LET ds == [i \in 1..Len(e.c) |-> Rec(e.c[i], v, ns)] IN FirstRaise(ds, FlattenedSum(ds))
+            LET F(i) == Rec(e.c[i], v, ns)
+                ds == MapSeq(Len(e.c), F)
+            IN FirstRaise(ds, FlattenedSum(ds))
       [] e.t = "Product" ->
             LET n == Len(e.c)
-                ds == [i \in 1..n |-> Rec(e.c[i], v, ns)]
-                ts == [i \in 1..n |->
-                         IF IsRaise(ds[i]) THEN ds[i]
-                         ELSE FlattenedProduct(SubSeq(e.c, 1, i - 1) \o << ds[i] >> \o SubSeq(e.c, i + 1, n))]
+                F(i) == Rec(e.c[i], v, ns)
+                ds == MapSeq(n, F)
+                G(i) == IF IsRaise(ds[i]) THEN ds[i]
+                        ELSE FlattenedProduct(SubSeq(e.c, 1, i - 1) \o << ds[i] >> \o SubSeq(e.c, i + 1, n))
+                ts == MapSeq(n, G)
             IN FirstRaise(ts, FlattenedSum(ts))
       [] e.t = "Quotient" ->
             LET f == e.a g == e.b df == Rec(f, v, ns) dg == Rec(g, v, ns) IN
@@ -320,25 +337,42 @@ Predicted(e, v, ns) == LET r == DiffRules(e, v, ns) IN
 (***************************************************************************)
 IsRefusal(out) == out.r = "err" /\ out.v.e \in {"ValueError", "RuntimeError"}
 
+\* The model's log is total, the real one is not: evaluating the returned tree at this point
+\* applies log (the variable `log` of the general power rule, or math.log) to a non-positive
+\* number, i.e. raises "math domain error" with the real function.  If is lazy.
+IsLogFn(f) == (f.t = "Var" /\ f.name = "log") \/ MathName(f) = "log"
+RECURSIVE LogBad(_, _)
+LogBad(t, env) ==
+    CASE t.t = "Call" ->
+            \/ IsLogFn(t.f) /\ Len(t.c) = 1 /\ LET u == Eval(t.c[1], env) IN IsNum(u) /\ u.n <= 0
+            \/ \E i \in 1..Len(t.c) : LogBad(t.c[i], env)
+      [] t.t = "If" ->
+            \/ LogBad(t.i, env)
+            \/ LET c == Eval(t.i, env) IN
+               IsNum(c) /\ LogBad(IF Truthy(c) THEN t.th ELSE t.el, env)
+      [] OTHER -> \E i \in 1..Len(Kids(t)) : LogBad(Kids(t)[i], env)
+
 \* one returned tree at one point
 JudgePoint(e, v, tree, env) ==
     LET m == DEval(e, env, v) IN
     IF ~Defined(m) THEN "NA"
+    ELSE IF LogBad(tree, env) THEN "tree-raises-log-domain"
     ELSE LET tv == Eval(tree, env) IN
-         IF IsUnrep(tv) THEN "SKIP"
+         IF IsUnrep(tv) \/ tv.k = "fstr" THEN "SKIP"      \* fstr: a float outside the exact model
          ELSE IF IsErr(tv) THEN "tree-raises"
          ELSE IF ~IsNum(tv) THEN "not-a-number"
          ELSE IF ValEq(tv, m.der) THEN "OK" ELSE "wrong-value"
 
 \* one returned tree at every point of the box: first failing point, else OK / SKIP
 JudgeTree(e, v, tree) ==
-    LET vs == [i \in 1..Len(Envs) |-> JudgePoint(e, v, tree, Envs[i])]
+    LET F(i) == JudgePoint(e, v, tree, Envs[i])
+        vs == MapSeq(Len(Envs), F)
         bad(i) == vs[i] \notin {"OK", "NA", "SKIP"}
     IN IF \E i \in 1..Len(vs) : bad(i)
        THEN LET i == CHOOSE i \in 1..Len(vs) : bad(i) /\ \A j \in 1..(i - 1) : ~bad(j)
-            IN [v |-> vs[i], env |-> i]
-       ELSE IF \A i \in 1..Len(vs) : vs[i] # "OK" THEN [v |-> "SKIP", env |-> 0]
-       ELSE [v |-> "OK", env |-> 0]
+            IN [v |-> vs[i], env |-> i, np |-> 0]
+       ELSE IF \A i \in 1..Len(vs) : vs[i] # "OK" THEN [v |-> "SKIP", env |-> 0, np |-> 0]
+       ELSE [v |-> "OK", env |-> 0, np |-> Cardinality({ i \in 1..Len(vs) : vs[i] = "OK" })]
 
 \* the input denotes a function nowhere in the box (e.g. log of a non-positive constant): an
 \* exception is then no statement about differentiation
@@ -346,12 +380,13 @@ NowhereDefined(e, v) == \A i \in 1..Len(Envs) : ~IsNum(DEval(e, Envs[i], v).val)
 
 \* one observation (tree / exception / unserialisable) for one setting
 JudgeOut(e, v, ns, out) ==
-    IF out.r = "unser" THEN [v |-> "SKIP", env |-> 0]
+    IF out.r = "unser" \/ ~InFragment(e) THEN [v |-> "SKIP", env |-> 0, np |-> 0]
     ELSE IF MustRefuse(e, ns) THEN
-        (IF IsRefusal(out) THEN [v |-> "OK", env |-> 0]
-         ELSE IF out.r = "err" THEN [v |-> "crash-instead-of-refusal", env |-> 0]
-         ELSE [v |-> "not-refused", env |-> 0])
-    ELSE IF out.r = "err" THEN [v |-> IF NowhereDefined(e, v) THEN "SKIP" ELSE "raised", env |-> 0]
+        (IF IsRefusal(out) THEN [v |-> "OK", env |-> 0, np |-> 0]
+         \* an exception of another class is a crash, not a refusal (same clause as below)
+         ELSE IF out.r = "err" THEN [v |-> "raised", env |-> 0, np |-> 0]
+         ELSE [v |-> "not-refused", env |-> 0, np |-> 0])
+    ELSE IF out.r = "err" THEN [v |-> IF NowhereDefined(e, v) THEN "SKIP" ELSE "raised", env |-> 0, np |-> 0]
     ELSE JudgeTree(e, v, out.e)
 
 \* attribution features of the input (computed by the spec, grouped by the harness)
@@ -364,6 +399,7 @@ Features(e, v) ==
             \cup (IF nm = "log" /\ Len(e.c) = 1 /\ Dev_LogOfIntegerConstant(e.c[1]) THEN {"log:integer-constant"} ELSE {})
        [] e.t = "Power" ->
             { "Power:" \o (IF Occurs(v, e.a) THEN "f" ELSE "c") \o (IF Occurs(v, e.b) THEN "f" ELSE "c") }
+            \cup (IF Dev_WrappedConstantExponent(e, v) THEN {"Power:wrapped-constant-exponent"} ELSE {})
        [] e.t = "Quotient" ->
             { "Quotient:" \o (IF Occurs(v, e.a) THEN "f" ELSE "c") \o (IF Occurs(v, e.b) THEN "f" ELSE "c") }
        [] e.t \in {"Var", "Const"} -> {}
